@@ -8,7 +8,8 @@ NoTrace(t, i) == [f |-> FALSE]
 OpStr(o) == o.op \o "|" \o o.via \o "|" \o o.name
 TokStr(t) == t.k \o "|" \o t.n \o "|" \o ToString(t.l) \o "|" \o ToString(t.x)
 Strs(s, F(_)) == [k \in 1..Len(s) |-> F(s[k])]
-TplOut(i) == T(i) @@ [body |-> Strs(ScriptOf(i, "body"), OpStr), fs |-> Strs(ScriptOf(i, "f"), OpStr), ps |-> Strs(ScriptOf(i, "probe"), OpStr),
+PreOf(i, j) == IF j = NONE THEN <<>> ELSE SpelledPre(i, j)
+TplOut(i) == T(i) @@ [dir |-> DirOf(i), abs |-> (SpellOf(i) = "abs"), pre1 |-> PreOf(i, T(i).p1), pre2 |-> PreOf(i, T(i).p2)] @@ [body |-> Strs(ScriptOf(i, "body"), OpStr), fs |-> Strs(ScriptOf(i, "f"), OpStr), ps |-> Strs(ScriptOf(i, "probe"), OpStr),
                       bs |-> Strs(ScriptOf(i, "b"), OpStr), cs |-> Strs(ScriptOf(i, "c"), OpStr)]
 Emit == ~(phase = "done" /\ PrintT(ToJson([fam |-> cfg.fam, N |-> cfg.N, top |-> cfg.top, entry |-> cfg.entry, sw |-> cfg.sw, pa |-> cfg.pa, mode |-> cfg.mode,
                                             tpl |-> [i \in Ids |-> TplOut(i)], out |-> Strs(out, TokStr)])) /\ FALSE)
